@@ -94,7 +94,11 @@ def run_seed(mutate=None):
         s.applied_vector_potential = s.disorder_epsilon = object()
         s.terminal_currents = None
         s.update = lambda *a, **k: None
+        A_ref = s.current_A_applied
         s.solve()
+        # solve() hands the state to the runner; it must not touch the reference potential the operators were last refreshed with (C10's
+        # invariant Inv_S is what update() relies on at its first call)
+        sym.check_terms("C10.solve_keeps_the_reference_potential_of_the_operators", s.current_A_applied is A_ref)
         names = list(LOG["names"])
         vals = list(LOG["initial_values"])
         want = ["psi", "mu", "supercurrent", "normal_current", "induced_vector_potential"] + (["applied_vector_potential"] if s.dynamic_vector_potential else [])
@@ -186,6 +190,20 @@ def native(seed=0):
                     if not np.array_equal(a, fulla[s_][nm]):
                         bad.append(dict(what="adaptive run: frames with the same step label differ between recording cadences", step=s_, field=nm, save_every=k))
                         break
+        # split and resume with a non-zero terminal value (the continuation must start from exactly the saved state)
+        dev = tdgl.Device("d", layer=layer, film=film, terminals=[src, drn], probe_points=[(-1, 0), (1, 0)], length_units="um")
+        dev.make_mesh(max_edge_length=0.5, smooth=5)
+        kwt = dict(applied_vector_potential=0.2, terminal_currents=dict(source=2.0, drain=-2.0))
+        ot = lambda st, nm: tdgl.SolverOptions(solve_time=st, dt_init=1e-2, adaptive=False, save_every=10, terminal_psi=0.6, output_file=os.path.join(td, nm))
+        full_t = frames(tdgl.solve(dev, ot(0.4, "tfull.h5"), **kwt).path)
+        s1t = tdgl.solve(dev, ot(0.2, "tp1.h5"), **kwt)
+        f2t = frames(tdgl.solve(dev, ot(0.2, "tp2.h5"), seed_solution=s1t, **kwt).path)
+        n += 1
+        for s_, d in f2t.items():
+            for nm, a in d.items():
+                if (s_ + 20) in full_t and not np.array_equal(a, full_t[s_ + 20][nm]):
+                    bad.append(dict(what="resumed run (terminal_psi = 0.6) differs from the uninterrupted run", step=s_ + 20, field=nm, max_abs_diff=float(np.abs(a - full_t[s_ + 20][nm]).max())))
+                    break
         # split and resume (fixed step): 70 steps = 30 + 40
         dev = tdgl.Device("d", layer=layer, film=film, terminals=[src, drn], probe_points=[(-1, 0), (1, 0)], length_units="um")
         dev.make_mesh(max_edge_length=0.5, smooth=5)
